@@ -15,12 +15,14 @@ def run(wntr, wn, trace=None, **kw):
 
 
 def converged(res, err, warns):
+    """the run completed without any failed step (results.error_code stays None; no non-convergence warning)"""
     if err is not None or res is None:
         return False
-    if getattr(res, "error_code", None) not in (None, 0):
+    if getattr(res, "error_code", None) is not None:
         return False
     for m in warns:
-        if "failed to converge" in m.lower() or "exceeded maximum number of trials" in m.lower():
+        ml = m.lower()
+        if "did not converge" in ml or "failed to converge" in ml or "exceeded maximum number of trials" in ml:
             return False
     return True
 
